@@ -518,6 +518,10 @@ def check_tail(rep, F, f, rec, R, G):
                     got.append(em)
                     if em not in allowed or other:
                         okv = False
+                # clip and keep: the break implied by the end of input (a last content line without a line break) is appended on some
+                # path of this case - which one is decided by the end-of-input test, rule implied-final-break
+                if v in ("Clip", "Keep") and allowed[1] not in got:
+                    okv = False
                 rep.check(okv, "chomp-tail-table", inst, "tail chomping differs from YAML 1.2 section 8.1.1.2 (strip: nothing; clip: the final line break; keep: the final "
                           "line break then the trailing empty lines)", site=f.span, detail={"appended_on_some_path": got, "allowed": allowed})
     return n
